@@ -15,8 +15,8 @@
 -/
 import Xsel.Walk
 
-namespace Xsel.Walk
-open Xsel Xsel.Syntax
+namespace Xsel.Walk.L2
+open Xsel Xsel.Syntax Xsel.Walk
 
 def binOpOfNode : String → Option BinOp
   | "OrExprOr" => some .or | "AndExprAnd" => some .and
@@ -104,39 +104,39 @@ def lowE : PT → Option Expr
     match binOpOfNode name with
     | some op =>
       (match ks with
-       | .cons l (.cons (.tk _) (.cons r .nil)) =>
+       | .cons l (.cons (.tk t) (.cons r .nil)) =>
          (match lowE l, lowE r with
-          | some a, some b => some (.bin op a b)
+          | some a, some b => if t == opTok op then some (.bin op a b) else none
           | _, _ => none)
        | _ => none)
     | none =>
       if name == "RelativeLocationPath" then lowRelKids ks .ctx
       else
       match name, ks with
-      | "UnaryExprNegate", .cons (.tk _) (.cons u .nil) => (lowE u).map .neg
+      | "UnaryExprNegate", .cons (.tk (.p .minus)) (.cons u .nil) => (lowE u).map .neg
       | "Literal", .cons (.tk (.lit _ s)) .nil => some (.lit s)
       | "AbsoluteLocationPathOnly", .cons (.tk (.p .slash)) .nil => some .root
       | "Number", _ => (parseUnsigned ks.text).map (fun q => .num (Num.rnd q))
       | "VariableReference", .cons (.tk (.var s)) .nil => some (.var (splitQName s).1 (splitQName s).2)
-      | "FunctionCall", .cons q (.cons (.tk _) (.cons sg .nil)) =>
+      | "FunctionCall", .cons q (.cons (.tk (.p .lparen)) (.cons sg .nil)) =>
         (match lowQName q, lowArgs sg with
          | some (p, n), some as => some (.call .ctx p n as)
          | _, _ => none)
-      | "PrimaryExprParenthetic", .cons (.tk _) (.cons e (.cons (.tk _) .nil)) => lowE e
+      | "PrimaryExprParenthetic", .cons (.tk (.p .lparen)) (.cons e (.cons (.tk (.p .rparen)) .nil)) => lowE e
       | "FilterExprWithPredicate", .cons f (.cons pr .nil) =>
         (match lowE f, lowPred pr with
          | some a, some b => some (.filt a b)
          | _, _ => none)
-      | "PathExprFilterWithPath", .cons f (.cons (.tk _) (.cons r .nil)) =>
+      | "PathExprFilterWithPath", .cons f (.cons (.tk (.p .slash)) (.cons r .nil)) =>
         (match lowE f with
          | some a => lowRel r a
          | none => none)
-      | "PathExprFilterWithAbbreviatedPath", .cons f (.cons (.tk _) (.cons r .nil)) =>
+      | "PathExprFilterWithAbbreviatedPath", .cons f (.cons (.tk (.p .dslash)) (.cons r .nil)) =>
         (match lowE f with
          | some a => lowRel r (dosOf a)
          | none => none)
-      | "AbsoluteLocationPathWithRelative", .cons (.tk _) (.cons r .nil) => lowRel r .root
-      | "AbbreviatedAbsoluteLocationPath", .cons (.tk _) (.cons r .nil) => lowRel r (dosOf .root)
+      | "AbsoluteLocationPathWithRelative", .cons (.tk (.p .slash)) (.cons r .nil) => lowRel r .root
+      | "AbbreviatedAbsoluteLocationPath", .cons (.tk (.p .dslash)) (.cons r .nil) => lowRel r (dosOf .root)
       | _, .cons t .nil => if unitNTs.contains name then lowE t else none        -- unit productions
       | _, _ => none
 
@@ -149,11 +149,11 @@ def lowRel : PT → Expr → Option Expr
 def lowRelKids : PTs → Expr → Option Expr
   | .cons t .nil, base =>
     match t with
-    | .nt "RelativeLocationPathWithStep" (.cons r (.cons (.tk _) (.cons s .nil))) =>
+    | .nt "RelativeLocationPathWithStep" (.cons r (.cons (.tk (.p .slash)) (.cons s .nil))) =>
       (match lowRel r base with
        | some b => lowStep s b
        | none => none)
-    | .nt "AbbreviatedRelativeLocationPath" (.cons r (.cons (.tk _) (.cons s .nil))) =>
+    | .nt "AbbreviatedRelativeLocationPath" (.cons r (.cons (.tk (.p .dslash)) (.cons s .nil))) =>
       (match lowRel r base with
        | some b => lowStep s (dosOf b)
        | none => none)
@@ -179,7 +179,7 @@ def lowStep : PT → Expr → Option Expr
        | _, _, _ => none)
     | .nt "AbbreviatedStep" (.cons (.nt "AbbreviatedStepSelf" (.cons (.tk (.p .dot)) .nil)) .nil) => some (.step base .self .node .nil)
     | .nt "AbbreviatedStep" (.cons (.nt "AbbreviatedStepParent" (.cons (.tk (.p .dotdot)) .nil)) .nil) => some (.step base .parent .node .nil)
-    | .nt "FunctionCall" (.cons q (.cons (.tk _) (.cons sg .nil))) =>
+    | .nt "FunctionCall" (.cons q (.cons (.tk (.p .lparen)) (.cons sg .nil))) =>
       (match lowQName q, lowArgs sg with
        | some (p, n), some as => some (.call base p n as)
        | _, _ => none)
@@ -201,22 +201,22 @@ def lowPreds : PT → Option Exprs
   | _ => none
 
 def lowPred : PT → Option Expr
-  | .nt "Predicate" (.cons (.tk _) (.cons e (.cons (.tk _) .nil))) => lowE e
+  | .nt "Predicate" (.cons (.tk (.p .lbrack)) (.cons e (.cons (.tk (.p .rbrack)) .nil))) => lowE e
   | _ => none
 
 /-- a `FunctionSignature` / `FunctionCallArgumentList` node: the arguments -/
 def lowArgs : PT → Option Exprs
   | .nt "FunctionSignature" (.cons t .nil) =>
     match t with
-    | .nt "FunctionSignatureNoArgs" (.cons (.tk _) .nil) => some .nil
+    | .nt "FunctionSignatureNoArgs" (.cons (.tk (.p .rparen)) .nil) => some .nil
     | l => lowArgs l
   | .nt "FunctionCallArgumentList" (.cons t .nil) =>
     match t with
-    | .nt "FunctionCallArgumentListEndArg" (.cons a (.cons (.tk _) .nil)) =>
+    | .nt "FunctionCallArgumentListEndArg" (.cons a (.cons (.tk (.p .rparen)) .nil)) =>
       (match lowE a with
        | some x => some (.cons x .nil)
        | none => none)
-    | .nt "FunctionCallArgumentListArgWithNext" (.cons a (.cons (.tk _) (.cons rest .nil))) =>
+    | .nt "FunctionCallArgumentListArgWithNext" (.cons a (.cons (.tk (.p .comma)) (.cons rest .nil))) =>
       (match lowE a, lowArgs rest with
        | some x, some xs => some (.cons x xs)
        | _, _ => none)
@@ -228,4 +228,4 @@ end
 /-- the expression a whole forest denotes -/
 def lower (t : PT) : Option Expr := lowE t
 
-end Xsel.Walk
+end Xsel.Walk.L2
